@@ -82,8 +82,23 @@ func monitor(prop string, h *History, res *common.Result) {
 		viol(res, prop, "seq:restart:empty-file-start-failed", "start-up fails on a zero-length state file - the image a kill between Truncate(0) and Write of a state-file rewrite leaves behind, i.e. a file the server itself produced: "+h.EmptyStart, h, len(h.Steps)-1, nil)
 	}
 	noclearDisc := false
+	ownerOf, reqSid, nreqM := map[string]string{}, map[int]string{}, 0 // key token -> session the hold was granted to
 	for i := range h.Steps {
 		s := &h.Steps[i]
+		if s.Op.Kind == "trylock" || s.Op.Kind == "lock" {
+			reqSid[nreqM] = s.Op.Sid
+			if s.Resp.Ok {
+				ownerOf[keyTokOfReq(nreqM)] = s.Op.Sid
+			}
+			nreqM++
+		}
+		for _, e := range s.Resp.Events {
+			if f := strings.SplitN(e, ":", 4); len(f) > 1 && f[1] == "1" {
+				var req int
+				fmt.Sscanf(f[0], "%d", &req)
+				ownerOf[keyTokOfReq(req)] = reqSid[req]
+			}
+		}
 		if strings.HasPrefix(s.Impl, "panic ") {
 			viol(res, prop, "seq:panic:"+s.Op.Kind, "the server panicked in "+s.Op.Kind+": "+s.Resp.Panic, h, i, nil)
 			return
@@ -259,6 +274,22 @@ func monitor(prop string, h *History, res *common.Result) {
 				}
 			}
 		case "C08":
+			// K1 is about the holds OF the ending session under no-clear-on-disconnect. A hold that was
+			// granted to (or restored for) another session and leaves the listing when this session ends
+			// is a different disagreement of the views
+			if s.Op.Kind == "disconnect" && h.Cfg.NoClear && s.Before != nil {
+				after := map[string]bool{}
+				for _, e := range holdsOfListing(v) {
+					after[e] = true
+				}
+				for _, e := range holdsOfListing(s.Before) {
+					f := strings.Split(e, "/")
+					if owner, known := ownerOf[f[len(f)-2]]; !after[e] && len(f) >= 3 && known && owner != s.Op.Sid {
+						viol(res, prop, "seq:views:noclear-disconnect-forgot-foreign-hold", fmt.Sprintf("with no-clear-on-disconnect %q removed hold %s from the admin listing although it was granted to session %q, not to the ending one; the lock table keeps it", s.Op.Line(), e, owner), h, i, nil)
+						return
+					}
+				}
+			}
 			sig := ""
 			if noclearDisc {
 				sig = ":noclear-disconnect"
